@@ -124,6 +124,14 @@ impl Cursors {
         //# final size for the stream, an endpoint SHOULD respond with an error
         //# of type FINAL_SIZE_ERROR; see Section 11 for details on error
         //# handling.
+        if let Some(final_offset) = reader.final_offset() {
+            // make sure the reader doesn't exceed its own final offset
+            ensure!(
+                final_offset.as_u64() >= buffered_offset,
+                Err(Error::InvalidFin)
+            );
+        }
+
         match (reader.final_offset(), self.final_size()) {
             (Some(actual), Some(expected)) => {
                 ensure!(actual == expected, Err(Error::InvalidFin));
